@@ -74,6 +74,45 @@ func VerifC19_MetricKeySetAttribution() {
 	}
 }
 
+// VerifC19_MetricKeySetAttributionLongValues: the attribution question with
+// value lengths on both sides of the places where the decimal length prefix of
+// the merged lookup key changes its width (9/10/11 bytes; thorough: 99/100/101
+// too), every byte symbolic (ASCII, so that label values are kept as they are):
+// tuples such as ("2","abcdefghij0") and ("11abcdefghij","") must not share a
+// counter set. Lengths are case-split, contents are decided by the solver.
+//
+//verif:reach same different
+//verif:paths 200000
+func VerifC19_MetricKeySetAttributionLongValues() {
+	lens := []int{0, 1, 9, 10, 11}
+	if sym.Tier() > 0 {
+		lens = []int{0, 1, 2, 9, 10, 11, 12, 99, 100, 101}
+	}
+	value := func(name string) string {
+		n := lens[sym.Choice(name+"Len", len(lens))]
+		v := sym.String(name, n, n)
+		for i := 0; i < len(v); i++ {
+			sym.Assume(v[i] < 0x80)
+		}
+		return v
+	}
+	h1, a1 := value("host1"), value("app1")
+	h2, a2 := value("host2"), value("app2")
+	m := fakes.NewMetrics()
+	pc := verifNewProcessCounter(m)
+	r1 := verifKeySchema.NewTestRecord1(LogFields{h1, a1, "m"})
+	r2 := verifKeySchema.NewTestRecord1(LogFields{h2, a2, "m"})
+	c1 := pc.SelectMetricKeySet(r1)
+	c2 := pc.SelectMetricKeySet(r2)
+	same := h1 == h2 && a1 == a2
+	sym.Assert((c1 == c2) == same, "records with longer metric-key values share a counter set iff their tuples are equal")
+	if same {
+		sym.Reach("same")
+	} else {
+		sym.Reach("different")
+	}
+}
+
 // VerifC19_LabelsSurviveBufferReuse: the label values of a metric key set are
 // private copies: after the record that created the key set is released and its
 // buffer reused, later records of the same tuple are still counted under the
